@@ -709,6 +709,16 @@ class C09(Prop):
             for l in c.lines:
                 if l.startswith("mode "):
                     h[l] = h.get(l, 0) + 1
+                elif l == PLAIN_MARK:
+                    h["cases also run without sanitizers"] = h.get("cases also run without sanitizers", 0) + 1
+                elif l.startswith("step "):
+                    io = [a.split(":")[0] for a in l.split()[1:] if not a.startswith(("tick", "idle"))]
+                    if len(io) >= 2:
+                        h["polls with %d events" % min(len(io), 4)] = h.get("polls with %d events" % min(len(io), 4), 0) + 1
+                        if "conn" in io and io[-1] != "conn":
+                            h["polls: accept followed by other events"] = h.get("polls: accept followed by other events", 0) + 1
+                        if "reset" in io or "close" in io:
+                            h["polls: hang-up / eof with other events"] = h.get("polls: hang-up / eof with other events", 0) + 1
         return h
 
 
